@@ -306,6 +306,12 @@ def evaluator_sessions(R, batch, tier, stats):
             # the twin problem has its own fitness for the same individuals
             do_call(evaluator, evname, problem2, mini2, list(inds), ids)
             do_call(evaluator, evname, problem2, mini2, [inds[0]], ids)
+        if multi:
+            # a LAZY problem (one bool for all components) whose very first evaluation is made by the pool
+            lazy = bool(sidx % 2)
+            problem3 = MultiObjectiveProblem(minimize=lazy, fitness_function=ff)
+            fresh = [Individual(gt, rep) for gt in genos]
+            do_call(ParallelEvaluator(), "par", problem3, [lazy, lazy], fresh + ([fresh[0]] if size > 1 else []), Ids())
         evs.append({"e": "evalpair", "seq": stores[0], "par": stores[1]})
         os.remove(logpath)
         cfg = base_cfg(mini, multi, "direct", evaluator="both")
